@@ -254,11 +254,22 @@ func (b *batch) Delete(ctx context.Context, key ds.Key) error {
 }
 
 func (b *batch) Commit(ctx context.Context) error {
-	b.d.yield("commit", "")
+	// the yield key of a commit lists the keys the batch deletes ("-<key>") and writes ("+<key>")
+	var desc strings.Builder
+	for _, op := range b.ops {
+		if op.Del {
+			desc.WriteString("-")
+		} else {
+			desc.WriteString("+")
+		}
+		desc.WriteString(op.Key)
+		desc.WriteString(" ")
+	}
+	b.d.yield("commit", desc.String())
 	if err := b.d.ctxErr(ctx); err != nil {
 		return err
 	}
-	defer b.d.yield("commit-return", "")
+	defer b.d.yield("commit-return", desc.String())
 	b.d.mu.Lock()
 	defer b.d.mu.Unlock()
 	ops := b.ops
